@@ -205,6 +205,16 @@ PROPS = {
             dict(name="TestOTel", quick=1000, thorough=8000, shards_thorough=8),
         ],
     ),
+    "C14": dict(
+        pkg="c14", level="fault_enumeration",
+        technique="crash-point injection: a child process runs generated workloads (rapid) and is SIGKILLed at a drawn acknowledgement; the parent audits the reopened database against the acknowledgements",
+        level_text="The deciding step is where the process is killed: after every acknowledgement position of generated append/save workloads (with a drawn sub-millisecond delay so the kill lands inside the next operation), or a clean close, over 1-4 cycles on one file followed by repeated reopening. Crash points are sampled by rapid (each case = one placement per cycle).",
+        level_note="SIGKILL keeps the OS page cache, so power-loss durability (synchronous=NORMAL vs FULL) cannot be distinguished here.",
+        assumptions=COMMON_ASSUME + ["an acknowledgement line written to the pipe before the kill is read by the parent after the child's death", "the OS keeps written pages of a killed process (no power loss)"],
+        tests=[
+            dict(name="TestKillReopen", quick=60, thorough=600, shards_thorough=16, shrinktime="30s"),
+        ],
+    ),
 }
 
 HOOK_COMMITS = ["99604d0"]
